@@ -392,6 +392,30 @@ type Style struct {
 	Decl     bool // XML declaration
 	Quote    byte // '"' (default) or '\''
 	RevAttrs bool // reverse attribute order
+	// --- purely lexical variants: the information set (and therefore every canonical form) is unchanged
+	TextForm  string // "" escaped | "cdata" (text nodes as CDATA sections) | "charref" (first rune hex, last rune decimal character reference)
+	AttrForm  string // "" | "charref" (first rune of every attribute value as a character reference)
+	Misc      string // "" | "comments" (comments in the prolog, between sibling elements, inside text, after the root) | "pi" (processing instructions in prolog and epilog) | "both"
+	BOM       bool   // UTF-8 byte order mark in front of the document
+	EmptyPair bool   // <a></a> instead of <a/>
+	TagWS     bool   // white space inside tags: around '=', between attributes (line breaks), before '>' and in end tags
+	DeclForm  string // with Decl: "" version+encoding | "noenc" | "standalone" | "single" (single-quoted pseudo-attributes) | "lowerenc" (encoding="utf-8")
+}
+
+// Lex copies the purely lexical options of st (plus Decl and Quote) - what may still be applied to a signed tree.
+func (st Style) Lex() Style {
+	return Style{Decl: st.Decl, Quote: st.Quote, TextForm: st.TextForm, AttrForm: st.AttrForm, Misc: st.Misc, BOM: st.BOM, EmptyPair: st.EmptyPair, TagWS: st.TagWS, DeclForm: st.DeclForm}
+}
+
+func charRefForm(s string, esc func(string) string) string {
+	rs := []rune(s)
+	if len(rs) == 0 {
+		return ""
+	}
+	if len(rs) == 1 {
+		return fmt.Sprintf("&#x%X;", rs[0])
+	}
+	return fmt.Sprintf("&#x%X;", rs[0]) + esc(string(rs[1:len(rs)-1])) + fmt.Sprintf("&#%d;", rs[len(rs)-1])
 }
 
 var stdPrefix = map[string]string{NSSamlp: "samlp", NSSaml: "saml", NSDsig: "ds", NSMd: "md", NSSoap: "soap"}
@@ -529,21 +553,57 @@ func (n *Node) Bytes(st Style) []byte {
 		q = '"'
 	}
 	var sb bytes.Buffer
+	if st.BOM {
+		sb.WriteString("\xEF\xBB\xBF")
+	}
 	if st.Decl {
-		sb.WriteString(`<?xml version="1.0" encoding="UTF-8"?>` + "\n")
+		switch st.DeclForm {
+		case "noenc":
+			sb.WriteString(`<?xml version="1.0"?>` + "\n")
+		case "standalone":
+			sb.WriteString(`<?xml version="1.0" encoding="UTF-8" standalone="yes"?>` + "\n")
+		case "single":
+			sb.WriteString(`<?xml version='1.0' encoding='UTF-8'?>` + "\n")
+		case "lowerenc":
+			sb.WriteString(`<?xml version="1.0" encoding="utf-8" ?>` + "\r\n")
+		default:
+			sb.WriteString(`<?xml version="1.0" encoding="UTF-8"?>` + "\n")
+		}
+	}
+	comments := st.Misc == "comments" || st.Misc == "both"
+	pis := st.Misc == "pi" || st.Misc == "both"
+	if comments {
+		sb.WriteString("<!-- prolog <Issuer>https://comment.example</Issuer> -->\n")
+	}
+	if pis {
+		sb.WriteString("<?verif-pi prolog=\"1\"?>\n")
+	}
+	sp, eq, brk := " ", "=", ""
+	if st.TagWS {
+		sp, eq, brk = "\n\t ", " = ", " "
 	}
 	var rec func(x *Node, depth int)
 	rec = func(x *Node, depth int) {
 		if x.IsText {
-			sb.WriteString(escText(x.Text))
+			switch {
+			case st.TextForm == "cdata" && !strings.Contains(x.Text, "]]>") && !strings.Contains(x.Text, "\r") && x.Text != "":
+				sb.WriteString("<![CDATA[" + x.Text + "]]>")
+			case st.TextForm == "charref":
+				sb.WriteString(charRefForm(x.Text, escText))
+			case comments && len([]rune(x.Text)) > 1 && strings.TrimSpace(x.Text) != "":
+				rs := []rune(x.Text)
+				sb.WriteString(escText(string(rs[:len(rs)/2])) + "<!-- split -->" + escText(string(rs[len(rs)/2:])))
+			default:
+				sb.WriteString(escText(x.Text))
+			}
 			return
 		}
 		sb.WriteString("<" + x.qname())
 		for _, d := range x.NS {
 			if d.Prefix == "" {
-				sb.WriteString(" xmlns=" + string(q) + serAttr(d.URI, q) + string(q))
+				sb.WriteString(sp + "xmlns" + eq + string(q) + serAttr(d.URI, q) + string(q))
 			} else {
-				sb.WriteString(" xmlns:" + d.Prefix + "=" + string(q) + serAttr(d.URI, q) + string(q))
+				sb.WriteString(sp + "xmlns:" + d.Prefix + eq + string(q) + serAttr(d.URI, q) + string(q))
 			}
 		}
 		attrs := x.Attrs
@@ -558,13 +618,21 @@ func (n *Node) Bytes(st Style) []byte {
 			if a.Prefix != "" {
 				name = a.Prefix + ":" + a.Local
 			}
-			sb.WriteString(" " + name + "=" + string(q) + serAttr(a.Val, q) + string(q))
+			val := serAttr(a.Val, q)
+			if st.AttrForm == "charref" {
+				val = charRefForm(a.Val, func(t string) string { return serAttr(t, q) })
+			}
+			sb.WriteString(sp + name + eq + string(q) + val + string(q))
 		}
 		if len(x.Kids) == 0 {
-			sb.WriteString("/>")
+			if st.EmptyPair {
+				sb.WriteString(brk + "></" + x.qname() + brk + ">")
+			} else {
+				sb.WriteString(brk + "/>")
+			}
 			return
 		}
-		sb.WriteString(">")
+		sb.WriteString(brk + ">")
 		onlyElems := true
 		for _, k := range x.Kids {
 			if k.IsText {
@@ -575,14 +643,23 @@ func (n *Node) Bytes(st Style) []byte {
 			if st.Indent && onlyElems {
 				sb.WriteString("\n" + strings.Repeat("  ", depth+1))
 			}
+			if comments && onlyElems {
+				sb.WriteString("<!-- before " + k.Local + " -->")
+			}
 			rec(k, depth+1)
 		}
 		if st.Indent && onlyElems {
 			sb.WriteString("\n" + strings.Repeat("  ", depth))
 		}
-		sb.WriteString("</" + x.qname() + ">")
+		sb.WriteString("</" + x.qname() + brk + ">")
 	}
 	rec(n, 0)
+	if comments {
+		sb.WriteString("\n<!-- epilog -->")
+	}
+	if pis {
+		sb.WriteString("\n<?verif-pi epilog=\"1\"?>\n")
+	}
 	return sb.Bytes()
 }
 
